@@ -32,7 +32,9 @@ RULE = (
     "dict payload and real Simulation results of scan.time_course, sequential and parallel (2-3 pebble workers, "
     "kill inside a worker); plus partially filled caches - every proper non-empty subset of 4 keys present before the "
     "full run, for parallelise, scan.time_course and scan.steady_state (positional row alignment). Results are compared "
-    "as ordered lists with the cache-free run. non-trivial = the failpoint fired (the caching run really died) or the pre-existing cache is not a prefix of the keys; distinct = crash point id"
+    "as ordered lists with the cache-free run. Same-process histories (run, repeat from disk, caller edits the returned "
+    "objects, repeat; directory emptied and refilled by another computation over the same keys, repeated sequentially "
+    "and with workers) are compared run by run with cache-free runs. non-trivial = the failpoint fired (the caching run really died) or the pre-existing cache is not a prefix of the keys; distinct = crash point id"
 )
 ASSUMPTIONS = [
     "process death at Python line boundaries and at file byte boundaries (not arbitrary machine instructions); page-cache loss is not modelled",
@@ -104,6 +106,9 @@ def gen_cases(tier: str, seed: int) -> list[dict]:
             cases.append({"payload": pl, "nkeys": 4, "workers": 0, "fp": {"kind": "subset", "subset": sub}})
     cases.append({"payload": "scan_ss", "nkeys": 4, "workers": 2, "fp": {"kind": "subset", "subset": [1, 3]}})
     cases.append({"payload": "scan_ss", "nkeys": 3, "workers": 0, "fp": {"kind": "none"}})
+    for nk in (2, 3, 4):
+        for w in (0, 2):
+            cases.append({"payload": "small", "nkeys": nk, "workers": w, "fp": {"kind": "same_process"}})
     for i, c in enumerate(cases):
         c["seed"] = f"{seed}:C19:{i}"
     return cases
@@ -132,8 +137,8 @@ def run_workload(payload: str, nkeys: int, cache_dir: str | None, workers: int, 
 
     cache = None if cache_dir is None else Cache(tmp_dir=__import__("pathlib").Path(cache_dir))
     idx = list(range(nkeys)) if only is None else list(only)
-    if payload in ("small", "medium"):
-        fn = cachefn.small if payload == "small" else cachefn.medium
+    if payload in ("small", "medium", "small_alt"):
+        fn = {"small": cachefn.small, "medium": cachefn.medium, "small_alt": cachefn.small_alt}[payload]
         res = parallelise(fn, [(f"k{i}", i + 2) for i in idx], cache=cache, parallel=workers > 0,
                           max_workers=workers or None, disable_tqdm=True)
         return [(k, v) for k, v in res]
@@ -208,6 +213,8 @@ def run_case(case: dict) -> dict:
     try:
         os.environ.pop("VERIF_CALLLOG", None)
         expected = run_workload(payload, nkeys, None, 0)  # cache-free oracle
+        if fp["kind"] == "same_process":
+            return _same_process_history(case, ident, root, cdir, expected, counters)
         os.environ["VERIF_CALLLOG"] = calllog
 
         # ---- run 1: caching run with the failpoint armed -------------------------
@@ -291,6 +298,46 @@ def run_case(case: dict) -> dict:
         counters["partial_cache_not_a_prefix"] = int(died)
     return core.result(sig=core.sha(ident), nontrivial=died, violations=viols[:3], counters=counters,
                        sample={"case": ident, "post_crash_directory": listing, "run1_exit": st1} if died and case.get("idx", 0) % 25 == 0 else None, info=info)
+
+
+def _same_process_history(case: dict, ident: dict, root: str, cdir: str, expected: list, counters: dict) -> dict:
+    """Several cached runs inside ONE process (what a session does): run, repeat (from disk), edit the returned objects
+    in place, repeat; then the directory is emptied and filled by another computation over the same keys, and repeated
+    sequentially and with workers. Every run must return what a cache-free run of the same computation returns."""
+    nkeys, workers = case["nkeys"], case["workers"]
+    expected_alt = run_workload("small_alt", nkeys, None, 0)
+
+    def history() -> None:
+        out = {}
+        out["first"] = run_workload("small", nkeys, cdir, 0)
+        out["repeat"] = run_workload("small", nkeys, cdir, 0)
+        for _k, v in out["repeat"]:
+            v[3].append(-1.0)  # the caller edits what it got back
+        out["repeat_after_caller_edited_results"] = run_workload("small", nkeys, cdir, workers)
+        shutil.rmtree(cdir)
+        out["other_computation_first"] = run_workload("small_alt", nkeys, cdir, 0)
+        out["other_computation_repeat"] = run_workload("small_alt", nkeys, cdir, 0)
+        out["other_computation_repeat_with_workers"] = run_workload("small_alt", nkeys, cdir, 2)
+        for _k, v in out["repeat"]:
+            v[3].pop()
+        with open(os.path.join(root, "hist.pkl"), "wb") as fh:
+            pickle.dump(out, fh)
+
+    st, _ = _child(history)
+    viols: list[dict] = []
+    if st != 0:
+        err = open(os.environ["VERIF_CHILD_ERR"]).read()[-500:] if os.path.exists(os.environ["VERIF_CHILD_ERR"]) else ""
+        viols.append(core.viol("cached runs in one process fail", None, case=ident, status=st, error=err))
+    else:
+        with open(os.path.join(root, "hist.pkl"), "rb") as fh:
+            out = pickle.load(fh)  # noqa: S301
+        for step, got in out.items():
+            want = expected_alt if step.startswith("other") else expected
+            counters["same_process_runs_compared"] = counters.get("same_process_runs_compared", 0) + 1
+            if got != want:
+                viols.append(core.viol(f"cached run differs from a cache-free run of the same computation [{step}]", None, case=ident, step=step, got=str(got)[:300], expected=str(want)[:300]))
+                break
+    return core.result(sig=core.sha(ident), nontrivial=True, violations=viols[:2], counters=counters)
 
 
 def _calls(path: str) -> list[str]:
